@@ -247,27 +247,40 @@ def run(ck):
     stats = {"operations_checked": 0, "pairs_related": 0, "pairs_unrelated_same_counts": 0, "pairs_different_counts": 0,
              "pairs_defect_free": 0, "pairs_respelled": 0, "pairs_same_name": 0, "history_steps": 0, "answers_none": 0, "answers_found": 0, "unrelated_but_equivalent": 0}
     cells = 0
-    for label, crys, chem in gen.pool(rng, 4 * ncells, dims=(3,), random_frac=0.5, maxatoms=2):
+    # Crystal pairs with bit-identical lattice, the same number of atoms per chemistry and the same supercell matrix but DIFFERENT
+    # positions, built one after the other in this process (first pair: symmetric crystal first; second pair: displaced one first):
+    # every supercell must get the operations of ITS crystal (geometry check + expected group order, as for every other cell)
+    def A3(*x): return np.array(x, dtype=float)
+    def two(latt, z, names): return crystal.Crystal(latt, [[A3(0, 0, 0)], [A3(.5, .5, z)]], chemistry=names)
+    m221 = np.diag([2, 2, 1])
+    pairs = [("pair1:B2", two(np.eye(3), .5, ["A", "B"]), 0, m221), ("pair1:displaced-B2", two(np.eye(3), .3, ["A", "B"]), 0, m221),
+             ("pair2:displaced-tetragonal", two(np.diag([1., 1., 1.2]), .3, ["A", "B"]), 0, m221),
+             ("pair2:tetragonal-B2", two(np.diag([1., 1., 1.2]), .5, ["A", "B"]), 0, m221)]
+    nforced = len(pairs)
+    ncells += nforced
+    source = itertools.chain(pairs, ((l_, c_, ch_, None) for l_, c_, ch_ in gen.pool(rng, 4 * ncells, dims=(3,), random_frac=0.5, maxatoms=2)))
+    for label, crys, chem, forced_sl in source:
         if cells >= ncells: break
+        sp = cells - nforced          # index among the generated cells (negative: one of the fixed crystal pairs)
         if not all(isinstance(nm, str) for nm in crys.chemistry):   # addbasis() default names (see C28 finding) - rename
             crys = crystal.Crystal(crys.lattice, crys.basis, chemistry=[str(x) for x in crys.chemistry])
-        if cells == 3:
+        if sp == 3:
             # always: FCC host with octahedral (species 1) and tetrahedral (species 2) interstitial sublattices
             f0 = crystal.Crystal.FCC(1., chemistry="M")
             f1 = f0.addbasis(f0.Wyckoffpos(np.array([.5, .5, .5])), chemistry=["O"])
             crys = f1.addbasis(f1.Wyckoffpos(np.array([.25, .25, .25])), chemistry=["T"])
             label, chem = "fcc+oct+tet", 1
-        sl = sclib.random_superlatt(rng, maxdet=ck.n(4, 8) if cells != 3 else 2)
+        sl = forced_sl.copy() if forced_sl is not None else sclib.random_superlatt(rng, maxdet=ck.n(4, 8) if sp != 3 else 2)
         size = abs(int(round(np.linalg.det(sl))))
         if crys.N * size > ck.n(24, 40) or len(crys.G) * size > ck.n(400, 800):
             skipped["too-large"] += 1; continue
         inter = tuple(c for c in range(crys.Nchem) if crys.Nchem > 1 and c == chem and rng.random() < 0.6)
-        if cells == 3: inter = (1, 2)
+        if sp == 3: inter = (1, 2)
         ns = rng.choice([0, 1, 1, 2])
         # the first cells of every run have two solutes that SHARE a name: undefined (both ''), given equal names, or one named
         # like a host species -- the name-keyed defect sets then cannot tell the species apart, the occupation arrays can
-        naming = ["undefined", "equal", "like-host"][cells] if cells < 3 else (rng.choice(["undefined", "distinct", "equal"]) if ns == 2 else None)
-        if cells < 3: ns = 2
+        naming = ["undefined", "equal", "like-host"][sp] if 0 <= sp < 3 else (rng.choice(["undefined", "distinct", "equal"]) if ns == 2 else None)
+        if 0 <= sp < 3: ns = 2
         try:
             with warnings.catch_warnings():
                 warnings.simplefilter("ignore")
